@@ -82,6 +82,10 @@ pub trait Property: Sync {
     fn shards(&self, tier: Tier) -> usize {
         tier.pick(16, 16)
     }
+    /// upper bound on shrink attempts per failure (each attempt re-runs the check)
+    fn max_shrink_steps(&self) -> u64 {
+        3000
+    }
     fn cases_per_shard(&self, tier: Tier) -> u32;
     fn strategy(&self, tier: Tier) -> BoxedStrategy<Json>;
     /// deterministic cases run in addition to the generated ones (families, tables, regressions)
@@ -355,7 +359,7 @@ pub fn run_worker(p: &dyn Property, tier: Tier, shard: usize, nshards: usize, sk
                 if tree.simplify() {
                     loop {
                         steps += 1;
-                        if steps > 3000 {
+                        if steps > p.max_shrink_steps() {
                             break;
                         }
                         let c = tree.current();
